@@ -148,7 +148,26 @@ def mk_spectrum(ctx, name, waveunit='nm', valueunit=None, n=None, pairwise=False
 def wave_setter_model(ctx, env):
     """Spectrum.wave = value: validates (positive, increasing, unique) and stores; the validity of a
     symbolic grid is an abstract condition here (the validation code uses numpy sort)."""
-    self, value = env['self'], A.as_array(ctx, env['value'])
+    self = env['self']
+    if isinstance(env['value'], A.Gather):
+        # a selection of the samples of a grid (np.delete): stays positive and strictly increasing when the
+        # source was - shown for every pair of selected samples
+        g = env['value']
+        if getattr(ctx, 'grid_validation', None) != 'prove':
+            raise S.Unsupported('wave setter given a selection outside a grid-proving lemma')
+        n = g.mask.shape[0]
+        p_, q = ctx.fresh_int('gp'), ctx.fresh_int('gq')
+        sel = lambda t: S.z(S.truth(g.mask.at((t,))))
+        k = len(ctx.__dict__.setdefault('ghost_wave_sets', []))
+        ctx.oblige('radiometry.Spectrum.wave.setter::selection_positive_and_increasing[%s#%d]' % (getattr(ctx, 'grid_tag', ''), k),
+                   z3.And(z3.Implies(z3.And(q >= 0, q < S.z(n), sel(q)), S.z(S.gt(g.value(q), 0))),
+                          z3.Implies(z3.And(p_ >= 0, p_ < q, q < S.z(n), sel(p_), sel(q)), S.z(S.lt(g.value(p_), g.value(q))))), 'requires')
+        ctx.ghost_wave_sets.append({'self': self, 'value': g, 'ok': True})
+        ctx.assumptions.add('abstract:Spectrum.wave setter accepts every positive strictly increasing grid')
+        self.attrs['_wave'] = g
+        ctx.write_event(self, 'setattr _wave')
+        return None
+    value = A.as_array(ctx, env['value'])
     if getattr(ctx, 'grid_validation', None) == 'prove':
         # client lemmas that only ever hand over valid grids: show the grid positive and strictly increasing
         # (obligation) - the real validation accepts exactly such grids (checked natively, bounded C15)
@@ -771,4 +790,81 @@ def c15_lemmas():
         oblige_equal(ctx, 'C15::integrate.linear_in_the_values', trapezoid_between(ctx, w, lin, a, c),
                      S.add(S.mul(trapezoid_between(ctx, w, v, a, c), p), S.mul(trapezoid_between(ctx, w, v2, a, c), q)))
     out.append(('C15::integrate_additive_linear', integrate_additive_and_linear))
+
+    def trim_lemma(ctx):
+        """Spectrum.trim(tol), 0 <= tol < 1, on the real code, any grid length: an all-zero spectrum is left as
+        it is; a spectrum whose maximum is not positive is refused with ValueError and left as it is; otherwise
+        exactly the samples from the first to the last one whose value exceeds tol * max(value) are kept,
+        wavelengths and values unaltered, grid still valid."""
+        from lvc.prove import with_hyp
+        ctx.grid_validation = 'prove'
+        ctx.grid_tag = 'trim'
+        sp = mk_spectrum(ctx, 's')
+        w0, v0 = sp.attrs['_wave'], sp.attrs['_value']
+        n = w0.shape[0]
+        tol = ctx.fresh_real('tol')
+        ctx.assume(z3.And(tol >= 0, tol < 1))
+        q = ctx.fresh_int('q')
+        inq = z3.And(q >= 0, q < S.z(n))
+        try:
+            ctx.world.interp.call_function(ctx, method(ctx, sp, 'trim'), [sp, tol], {})
+        except Raised as r:
+            M = L._max_symbolic(ctx, v0, 'max')
+            ctx.oblige('C15::Spectrum.trim.refused_only_without_a_positive_maximum', z3.And(z3.BoolVal(r.exc == 'ValueError'), S.z(S.le(M, 0))))
+            ctx.oblige('C15::Spectrum.trim.refusal_leaves_the_spectrum_untouched', sp.attrs['_wave'] is w0 and sp.attrs['_value'] is v0)
+            return
+        w1, v1 = sp.attrs['_wave'], sp.attrs['_value']
+        if w1 is w0 and v1 is v0:
+            # untouched: only for an all-zero spectrum
+            ctx.oblige('C15::Spectrum.trim.untouched_only_if_all_zero', z3.Implies(inq, S.z(S.eq(v0.at((q,)), 0))))
+            return
+        if not (isinstance(w1, Arr) and isinstance(v1, Arr) and w1.cell is w0.cell and v1.cell is v0.cell and w1.ndim == 1 and v1.ndim == 1
+                and w1.axes[0] is not None and v1.axes[0] is not None and w1.axes[0].step == 1 and v1.axes[0].step == 1):
+            raise S.Unsupported('trim: the result is not a contiguous view of the original arrays (witness for the first kept index unavailable)')
+        f, n1 = w1.axes[0].start, w1.shape[0]
+        M = L._max_symbolic(ctx, v0, 'max')
+        ctx.oblige('C15::Spectrum.trim.one_value_per_wavelength', z3.And(S.z(S.eq(v1.shape[0], n1)), S.z(S.eq(v1.axes[0].start, f))))
+        ctx.oblige('C15::Spectrum.trim.kept_block_inside_the_grid', z3.And(S.z(S.ge(f, 0)), S.z(S.ge(n1, 1)), S.z(S.le(S.add(f, n1), n))))
+        last = S.sub(S.add(f, n1), 1)
+        ctx.oblige('C15::Spectrum.trim.first_and_last_kept_exceed_the_tolerance',
+                   z3.And(S.z(S.gt(S.truediv(v0.at((f,)), M), tol)), S.z(S.gt(S.truediv(v0.at((last,)), M), tol))))
+        with_hyp(ctx, [inq, z3.Or(q < S.z(f), q > S.z(last))],
+                 lambda: ctx.oblige('C15::Spectrum.trim.every_dropped_sample_is_within_the_tolerance', S.le(S.truediv(v0.at((q,)), M), tol)))
+        k = ctx.fresh_int('k')
+        with_hyp(ctx, [k >= 0, k < S.z(n1)],
+                 lambda: ctx.oblige('C15::Spectrum.trim.retained_samples_unaltered',
+                                    S.and_(S.eq(w1.at((k,)), w0.at((S.add(f, k),))), S.eq(v1.at((k,)), v0.at((S.add(f, k),))))))
+    out.append(('C15::trim', trim_lemma))
+
+    def crop_lemma(ctx):
+        """Spectrum.crop(lo, hi) on the real code, any grid length, any lo / hi with at least one sample in
+        [lo, hi]: exactly the samples with lo <= wave <= hi are kept (closed range), wavelengths and values
+        unaltered and still paired, the kept grid is valid."""
+        from lvc.prove import with_hyp
+        ctx.grid_validation = 'prove'
+        ctx.grid_tag = 'crop'
+        sp = mk_spectrum(ctx, 's', pairwise=True)
+        w0, v0 = sp.attrs['_wave'], sp.attrs['_value']
+        n = w0.shape[0]
+        lo, hi = ctx.fresh_real('min_wave'), ctx.fresh_real('max_wave')
+        e = ctx.fresh_int('inside')
+        ctx.assume(z3.And(e >= 0, e < S.z(n), S.z(S.le(lo, w0.at((e,)))), S.z(S.le(w0.at((e,)), hi))))
+        ctx.world.interp.call_function(ctx, method(ctx, sp, 'crop'), [sp, lo, hi], {})
+        i = ctx.fresh_int('i')
+        inr = [i >= 0, i < S.z(n)]
+        inside = S.and_(S.le(lo, w0.at((i,))), S.le(w0.at((i,)), hi))
+
+        def view(x, x0, what):
+            if x is x0:
+                return (lambda t: True), (lambda t: x0.at((t,)))
+            if isinstance(x, A.Gather) and ctx.known(S.eq(x.mask.shape[0], n)):
+                return (lambda t: S.truth(x.mask.at((t,)))), x.value
+            raise S.Unsupported('crop: %s is neither untouched nor a selection of the original samples' % what)
+        for what, x, x0 in (('wave', sp.attrs['_wave'], w0), ('value', sp.attrs['_value'], v0)):
+            sel, val = view(x, x0, what)
+            with_hyp(ctx, inr, lambda: ctx.oblige('C15::Spectrum.crop.keeps_exactly_the_closed_range[%s]' % what,
+                                                  S.z(S.truth(sel(i))) == S.z(inside)))
+            with_hyp(ctx, inr + [S.z(S.truth(sel(i)))],
+                     lambda: ctx.oblige('C15::Spectrum.crop.retained_samples_unaltered[%s]' % what, S.eq(val(i), x0.at((i,)))))
+    out.append(('C15::crop', crop_lemma))
     return out
